@@ -27,29 +27,52 @@ def one(case, model, rep):
         if pre_groups:
             t["uses"] = ["d%d" % (pre_groups - 1)]
         targets.append(t)
+    # some members are used by targets that are not part of the run (`-t members --deps`)
+    consumers = case.get("consumers", [])
+    for i in consumers:
+        if i < size:
+            targets.append({"path": "a%02d" % i, "uses": ["m%02d" % i]})
+            if i % 2:
+                targets.append({"path": "b%02d" % i, "uses": ["a%02d" % i]})
     cmds = ["c%d" % k for k in range(ncmd)]
-    repo = scen.Repo(targets, git=False)
+    pruned = case.get("pruned")          # a checkpoint exists and only every `pruned`-th member changed
+    repo = scen.Repo(targets, git=bool(pruned))
+    members = list(range(size))
+    if pruned:
+        members = [i for i in range(size) if i % pruned == 0]
+    nwait = len(members)
     try:
         plan = {}
         for t in targets:
             for c in cmds:
                 repo.install(t["path"], c)
-        for i in range(size):
+        for i in members:
             plan["%s|m%02d" % (cmds[probe_cmd], i)] = {
-                "barrier": {"dir": repo.barrier_root + "/" + cmds[probe_cmd], "n": size, "timeout_ms": case.get("timeout_ms", 15000)}}
+                "barrier": {"dir": repo.barrier_root + "/" + cmds[probe_cmd], "n": nwait, "timeout_ms": case.get("timeout_ms", 15000)}}
             if case.get("chatty"):
                 # the member is still printing after the first flush tick and has written more than a
                 # pipe buffer before it waits for the others
                 blk = (("m%02d " % i) + "x" * 120 + "\n").encode() * 256      # ~32 KiB of lines
                 plan["%s|m%02d" % (cmds[probe_cmd], i)]["pre"] = [[0, 1, blk.hex(), 1]] + [[100, 1, blk.hex(), 1] for _ in range(12)]
         repo.set_plan(plan)
+        run_args = ["run", "-c"] + cmds
+        if pruned:
+            repo.commit_all()
+            rcu, _, _, erru = repo.mono("checkpoint", "update")
+            for i in members:
+                with open(repo.dir + "/m%02d/file.txt" % i, "a") as f:
+                    f.write("changed\n")
+            rep.count("pruned_groups")
+        if consumers:
+            run_args += ["-t"] + ["m%02d" % i for i in range(size)] + ["--deps"]
+            rep.count("selected_with_unselected_consumers")
         tail = None
         if case.get("listener"):
             import logtail
             tail = logtail.start_tail(repo, {"stdout": True, "stderr": True, "targets": [], "commands": []})
             rep.count("with_listener")
         t0 = time.time()
-        rc, j, out, err = repo.mono("run", "-c", *cmds, timeout=90)
+        rc, j, out, err = repo.mono(*run_args, timeout=90)
         if tail is not None:
             tail.kill()
             tail.wait()
@@ -74,6 +97,9 @@ def one(case, model, rep):
             rep.oracle_fail({"kind": "a group whose members wait for each other did not complete", "case": case, "rc": rc,
                              "first_bad_entry": bad, "started_of_probe": len([t for t in repo.traces() if t["command"] == cmds[probe_cmd] and t["target"].startswith("m")]),
                              "stderr": err[-300:]})
+            return
+        if pruned or consumers:
+            rep.sample({"case": case, "wall_s": round(time.time() - t0, 3)})
             return
         # the model spawns every member of a group in one step
         groups = []
@@ -118,6 +144,11 @@ def main():
         for s in ([2, 4] if args["tier"] == "quick" else [2, 3, 4, 8]):
             cases.append({"size": s, "pre_groups": 0, "commands": 1, "probe_command": 0, "listener": True, "chatty": True})
             cases.append({"size": s, "pre_groups": 0, "commands": 1, "probe_command": 0, "chatty": True})
+        # groups that lost members to checkpoint pruning, or whose members have consumers outside the run
+        for s, k in ([(12, 2), (9, 3)] if args["tier"] == "quick" else [(12, 2), (9, 3), (30, 2), (40, 5)]):
+            cases.append({"size": s, "pre_groups": 0, "commands": 1, "probe_command": 0, "pruned": k})
+        for s, cons in ([(10, [3, 7]), (6, [0, 1, 4])] if args["tier"] == "quick" else [(10, [3, 7]), (6, [0, 1, 4]), (24, [1, 2, 3, 20])]):
+            cases.append({"size": s, "pre_groups": 0, "commands": 1, "probe_command": 0, "consumers": cons})
         n = (150 if args["tier"] == "thorough" else 12) * args["budget"]
         for _ in range(n):
             nc = rng.range(1, 3)
